@@ -183,6 +183,41 @@ def run(ctx, F, cg):
             else:
                 ctx.violation("R12e", inst + "|columns-read-conditionally", where(er, rline),
                               "a node record can be built without reading the node's column-store keys: a node with some properties in the row map and others only in the column store (stub-loaded then SET, or imported) loses the column-only ones on export")
+    # ---- R12h: every item of an exported collection yields its record ------------------------------------------------
+    ctx.rule("R12h", "the exporter writes a record for every hierarchy declaration, node and full relationship it iterates: from the head of each of those loops, every path back to the head passes the construction of the record (or an error exit) — a `continue` on some state of the item (stale, empty, ...) drops that item from the snapshot")
+    if len(exp_) == 1:
+        from .. import mutpoints as mp_
+        errs_ = {eb_ for eb_, el_, ew_ in mp_.error_exits(eb)}
+        n_h = 0
+        for rec_ty, item_ty in (("SnapshotHierarchyIndex", "HierarchySpec"), ("SnapshotNode", "graph::node::Node"), ("SnapshotEdge", "graph::edge::Edge")):
+            recs_ = [(i, line) for i, j, pl, rv, line, exp in eb.stmts() if rv[0] == "agg" and rv[1].endswith(rec_ty)]
+            heads = [c for c in nexts if c.target is not None and item_ty in eb.local_ty(c.dest[0])]
+            for hd in heads:
+                inside = [ri for ri, rl in recs_ if eb.dominates(hd.bb, ri) and hd.bb in eb.reachable(ri)]
+                if not inside:
+                    continue
+                n_h += 1
+                # the Some side of the head
+                some_t = None
+                for i in sorted(eb.reachable(hd.target)):
+                    t_ = eb.blocks[i]["t"]
+                    if t_[0] == "switch" and t_[1][0] != "k":
+                        ds_ = eb.defs().get(t_[1][1][0], [])
+                        if len(ds_) == 1 and ds_[0][0] == "stmt" and ds_[0][4][0] == "discr" and ds_[0][4][1][0] == hd.dest[0]:
+                            one = [tg for v, tg in t_[2] if v == "1"]
+                            some_t = one[0] if one else t_[3]
+                            break
+                inst = "export|%s-loop|%s" % (item_ty.rsplit("::", 1)[-1], rec_ty)
+                if some_t is None:
+                    ctx.anchor_failure("R12h", inst + ": Some side of the loop head")
+                    continue
+                skip = hd.bb in eb.reachable(some_t, avoid=set(inside) | errs_)
+                if skip:
+                    ctx.violation("R12h", inst + "|item-skipped", where(er, hd.line),
+                                  "the exporter can go on to the next %s without writing its %s record: items in some state are silently left out of the snapshot" % (item_ty.rsplit("::", 1)[-1], rec_ty))
+                else:
+                    ctx.ok("R12h", inst, "every iteration builds the record")
+        ctx.floor("R12h", "export loops that build a record per item", n_h, 3)
     # ---- R12f: the stub/full edge discriminator cannot drop an id ---------------------------------------------------
     ctx.rule("R12f", "the id set that tells full relationships from adjacency-only ones holds every id put into it: either insert grows the bitmap, or every constructor sizes it from the maximum of the ids it inserts (a size taken from the number of ids is too small after deletions left gaps, and the dropped relationship is exported twice)")
     ins = F.fn_opt("snapshot::EdgeIdSet::insert")
@@ -212,7 +247,27 @@ def run(ctx, F, cg):
             og = cb.origins(o[1][0], through_calls=lambda c: list(range(len(c.args)))) if o[0] != "k" else []
             names = {x[1].path.rsplit("::", 1)[-1] for x in og if x[0] in ("call", "via")}
             if names & {"max", "max_by", "max_by_key", "fold", "last"}:
-                ctx.ok("R12f", short, "bitmap length derives from the maximum id (%s)" % sorted(names & {"max", "max_by", "max_by_key", "fold", "last"}))
+                # quantitative part: insert keeps id iff id/64 < len, so len(max) must exceed max/64 for every max
+                len_op = o
+                for d_ in cb.defs().get(o[1][0], []):
+                    if d_[0] == "call" and d_[2].path.rsplit("::", 1)[-1] in ("from_elem", "with_capacity", "resize") and len(d_[2].args) >= 2:
+                        len_op = d_[2].args[1]
+                e_ = od.expr_of(cb, len_op)
+                rts = [x for x in od.roots(e_)]
+                verdict = None
+                if len(rts) == 1:
+                    try:
+                        badm = [m_ for m_ in range(0, 400) if not (od.evaluate(e_, {rts[0]: m_}) > m_ // 64)]
+                        verdict = badm
+                    except Exception:
+                        verdict = None
+                if verdict is None:
+                    ctx.violation("R12f", short + "|bitmap-length-not-evaluable", where(r_, line), "the bitmap length %s cannot be evaluated as a function of the maximum id (closed world: +, -, *, /, div_ceil)" % od.show(e_))
+                elif verdict:
+                    ctx.violation("R12f", short + "|bitmap-too-short", where(r_, line),
+                                  "the bitmap length %s does not cover the largest id for max = %s…: insert silently drops that id, the relationship is not recognised as full and is exported a second time as a property-less stub" % (od.show(e_), verdict[:3]))
+                else:
+                    ctx.ok("R12f", short, "bitmap length %s > max/64 for every max in 0..400" % od.show(e_))
             else:
                 ctx.violation("R12f", short + "|bitmap-not-sized-by-max", where(r_, line),
                               "EdgeIdSet::insert silently ignores an id beyond the bitmap, and %s sizes the bitmap from %s, not from the largest id: after deletions leave gaps a full relationship is not recognised and is written a second time as a property-less stub" % (short, sorted(names) or "a constant"))
